@@ -26,7 +26,7 @@ def run_prop(prop):
             if r.returncode != 0:
                 out[sid] = {"applies": False}; continue
             t0 = time.time()
-            r = sh([f"{ROOT}/dev.sh", prop.lower(), "quick"], e=dict(env, VERIF_REPO=wt))
+            r = sh([f"{ROOT}/dev.sh", prop.lower(), "quick"], e=dict(env, VERIF_REPO=wt, VERIF_ALT_TAG="-reseed"))
             sigs = [l.strip()[11:] for l in r.stdout.splitlines() if l.strip().startswith("signature:")]
             out[sid] = {"applies": True, "caught": r.returncode == 1 and "VIOLATION property=" in r.stdout, "exit": r.returncode,
                         "wall_s": round(time.time() - t0), "signatures": sigs[:3], "inconclusive": r.stdout.count("INCONCLUSIVE")}
